@@ -4,13 +4,7 @@ set -e
 cd "$(dirname "$0")"
 export GOFLAGS=-mod=mod GOPROXY=off GOSUMDB=off GOTOOLCHAIN=local
 mkdir -p .build evidence replay/found
-python3 - <<'PY'
-import sys; sys.path.insert(0,'.')
-import importlib.util
-spec = importlib.util.spec_from_loader('check', importlib.machinery.SourceFileLoader('check', './check'))
-m = importlib.util.module_from_spec(spec); spec.loader.exec_module(m)
-m.ensure_gosum()
-PY
+cat /repo/go.sum harness/go.sum.extra | sort -u > harness/go.sum
 cd harness
 go1.26.8 build ./... 
 go1.26.8 vet -tags verif ./... >/dev/null 2>&1 || true
